@@ -14,7 +14,7 @@ from ..runner import Acc
 ID = 'C19'
 LEVEL = 'model_checking'
 RULE = ('programs (facts, rules with cut / if-then-else / negation, atoms with embedded newlines and with a # after a '
-        'newline, atoms containing every other line separator (bare CR, CR LF, VT, FF, FS/GS/RS, NEL, LS, PS), non-ASCII atoms, lists and anonymous variables, empty and comment-only files, a syntax error, a '
+        'newline, atoms containing every other line separator (bare CR, CR LF, VT, FF, FS/GS/RS, NEL, LS, PS), non-ASCII atoms, atoms with NUL and other control characters, lists and anonymous variables, empty and comment-only files, a syntax error, a '
         'non-callable goal, a clause too large for Python, an unsupported term) x ALL 16 combinations of -d '
         '--debug-parser --debug-generator --debug-filename x {stdout, -o file} x {file argument, - with the text on '
         'standard input, the path /dev/stdin fed from a pipe (a source that is not a regular file)} x {one source, two sources, a second source that does not compile, a first source that does not compile followed by this one, a first source that stops in the middle of a clause followed by this one}, each run as a real '
@@ -44,10 +44,11 @@ PROGRAMS = [
     ('linebreaks', "m1('five\rsix').\nm2('a\r\nb').\nm3('x\x0by', 'p\x0cq').\nm4('u\x85v', 's\u2028t', 'w\u2029z', 'i\x1cj\x1dk\x1el').\n"
                    "p(X) :- 'go\rdef'(X), X = 'cr\rafter'.\ngreet('hello\rdef injected_0():\r  yield False\rmakelist = variable\r#').\n", 'ok'),
     ('directives-discontiguous', ":- init(_, _).\np(_, a).\nq(_, X) :- p(_, X).\np(b, _) :- q(_, _).\n:- other(_).\nq(_, _).\nr([_|_], f(_)).\np(_, _) :- r(_, _).\n", 'ok'),
+    ('control-characters', "c0('a\x00b', '\x01\x07\x1b', 'del\x7f').\nnul(X) :- c0('\x00', X, _), X \\= 'z\x00'.\n", 'ok'),
     ('open-ended', 'wet(X) :- rain(X),\n', 'syntax'),
     ('multiline-clause', "longer(\n  'first\nsecond',\n  X\n) :-\n  true,\n  X = 'x'.\n", 'ok'),
 ]
-QUICK = ['facts', 'newlines', 'unicode', 'syntax-error', 'control', 'linebreaks', 'too-large', 'directives-discontiguous']
+QUICK = ['facts', 'newlines', 'unicode', 'syntax-error', 'control', 'linebreaks', 'too-large', 'directives-discontiguous', 'control-characters']
 FLAGS = ['-d', '--debug-parser', '--debug-generator', '--debug-filename']
 
 
